@@ -3,7 +3,7 @@
    Every weight is coprime to 97, so a single-digit error always moves T; it stays undetected
    only when it moves T between the two accepted remainders, which happens only for the 2nd
    digit changed by 6 and the 3rd digit changed by 7.  Also: equivalence with the declarative
-   rule as implemented, and the deviation from the published rule (sum multiple of 97). *)
+   published rule. *)
 From Coq Require Import String List ZArith Strings.Byte Bool Lia ZifyBool.
 From Verif Require Import Base.Wire TaxId.Common TaxId.Regimes TaxId.CommonProofs TaxId.CheckProofs TaxId.Spec TaxId.COProofs TaxId.Mod97Proofs TaxId.ESProofs.
 Import ListNotations.
@@ -13,10 +13,10 @@ Ltac Zify.zify_post_hook ::= Z.div_mod_to_equations.
 Local Strategy 100 [Z.add Z.mul Z.sub Z.opp Z.modulo Z.div Z.eqb Z.ltb Z.leb Z.pow dv bZ].
 
 Lemma gb_sub97_closed s : 0 <= s <= 400 ->
-  (let cd := gb_sub97 8 s in if cd <? 0 then 0 - cd else cd) = (97 - s mod 97) mod 97.
+  (let cd := gb_sub97 8 s in if cd <? 0 then 0 - cd else cd) = 97 - s mod 97.
 Proof.
   intro R. cbn [gb_sub97]. cbv zeta.
-  repeat match goal with |- context [if 0 <? ?x then _ else _] => destruct (0 <? x) eqn:? end;
+  repeat match goal with |- context [if 0 <=? ?x then _ else _] => destruct (0 <=? x) eqn:? end;
     match goal with |- context [if ?x <? 0 then _ else _] => destruct (x <? 0) eqn:? end; lia.
 Qed.
 
@@ -106,16 +106,16 @@ Proof.
   intros L Dg. explode c L. unfold digits_n. cbn. pose_upto Dg 9%nat. unfold digit_at in *. cbn [nthb nth] in *. solve_digits.
 Qed.
 
-Theorem gb_commercial_iff_impl_spec_9 c :
+Theorem gb_commercial_iff_spec_9 c :
   List.length c = 9%nat ->
-  (digits_n 9 c = true /\ gb_commercial c = true <-> Spec_GB_commercial_with gb_check_number_impl c).
+  (digits_n 9 c = true /\ gb_commercial c = true <-> Spec_GB_commercial c).
 Proof.
-  intro L. unfold Spec_GB_commercial_with. rewrite L. split.
+  intro L. unfold Spec_GB_commercial, Spec_GB_commercial_with. rewrite L. split.
   - intros (D & V). split; [left; reflexivity|]. split; [apply digits_between_of_digits_n; exact D|].
     rewrite gb_commercial_unfold in V. pose proof (digits_n_bounds _ _ D) as Hd. explode c L. pose_upto Hd 9%nat. clear Hd D.
     destruct (num_of _ =? 0) eqn:Z0; [discriminate|]. split; [lia|]. cbv zeta in V.
     rewrite gb_sub97_closed in V by (cbn [digs map wsum gb_mults nthb nth] in *; lia).
-    unfold number, gb_old_range, gb_9755, gb_check_number_impl, gb_weighted, dig.
+    unfold number, gb_old_range, gb_9755, gb_check_number, gb_weighted, dig.
     cbn [digs map wsum gb_mults nthb nth] in *.
     generalize dependent (num_of (sub 0 7 [b; b0; b1; b2; b3; b4; b5; b6; b7])). intros num V.
     generalize dependent (num_of (sub 7 9 [b; b0; b1; b2; b3; b4; b5; b6; b7])). intros last V.
@@ -127,7 +127,7 @@ Proof.
     rewrite gb_commercial_unfold. pose proof (digits_n_bounds _ _ D) as Hd. explode c L. pose_upto Hd 9%nat. clear Hd D Dg.
     destruct (num_of _ =? 0) eqn:Z0; [lia|]. cbv zeta.
     rewrite gb_sub97_closed by (cbn [digs map wsum gb_mults nthb nth] in *; lia).
-    unfold number, gb_old_range, gb_9755, gb_check_number_impl, gb_weighted, dig in A.
+    unfold number, gb_old_range, gb_9755, gb_check_number, gb_weighted, dig in A.
     cbn [digs map wsum gb_mults nthb nth] in *.
     generalize dependent (num_of (sub 0 7 [b; b0; b1; b2; b3; b4; b5; b6; b7])). intros num A.
     generalize dependent (num_of (sub 7 9 [b; b0; b1; b2; b3; b4; b5; b6; b7])). intros last A.
@@ -138,30 +138,3 @@ Proof.
       match goal with |- context [if ?g then _ else _] => destruct g eqn:E3 end; lia.
 Qed.
 
-(* the implemented check number equals the published one unless the sum is a multiple of 97 *)
-Lemma gb_check_number_agree c : gb_weighted c mod 97 <> 0 -> gb_check_number_impl c = gb_check_number c.
-Proof. unfold gb_check_number_impl, gb_check_number. intro H. apply Z.mod_small. lia. Qed.
-
-Theorem gb_commercial_iff_spec_9 c :
-  List.length c = 9%nat -> gb_weighted c mod 97 <> 0 ->
-  (digits_n 9 c = true /\ gb_commercial c = true <-> Spec_GB_commercial c).
-Proof.
-  intros L H. rewrite (gb_commercial_iff_impl_spec_9 c L).
-  unfold Spec_GB_commercial, Spec_GB_commercial_with. rewrite (gb_check_number_agree c H). reflexivity.
-Qed.
-
-Lemma digits_between_explicit c n : (forallb is_digit c = true) -> n = List.length c -> digits_between c 0 n.
-Proof. intros H -> i Hi. apply all_digits_nth; [exact H | lia]. Qed.
-
-(* deviation from the published rule when the weighted sum is a multiple of 97: the
-   implementation wants check digits 00 where the rule gives 97 *)
-Theorem gb_published_deviation_refuted :
-  (gb_commercial (bs "930000200") = true /\ ~ Spec_GB_commercial (bs "930000200")) /\
-  (gb_commercial (bs "930000297") = false /\ Spec_GB_commercial (bs "930000297")).
-Proof.
-  split; split; try (vm_compute; reflexivity).
-  - intros (_ & _ & _ & A). vm_compute in A. destruct A as [(A & _)|(A & _)]; discriminate.
-  - split; [left; reflexivity|]. split; [apply digits_between_explicit; reflexivity|].
-    split; [vm_compute; discriminate|]. left. split; [vm_compute; reflexivity|].
-    unfold gb_old_range. vm_compute. intuition discriminate.
-Qed.
